@@ -8,12 +8,13 @@ CONSTANTS Weights = {1, 49, 50, 51, 100}
  PaySenders <- McPaySenders
  PayFields = {"gasPrice", "sigs", "amount"}
  GpFields = {"to", "amount", "gasPrice", "gasLimit", "data", "expiration", "chainID", "type", "toName", "message", "version", "sigs"}
+ MaxOver = 3
  BoxCfgs <- McBoxCfgs
  Kinds = {"vote"}
  ReconfCfgs <- McReconfQuick
  NewCfgs <- McNewCfgs
- Slices = {"sigs", "tamper", "payer", "junk", "box", "kinds", "reconf", "gp", "stale"}
+ Slices = {"sigs", "tamper", "payer", "junk", "box", "kinds", "reconf", "gp", "over", "stale"}
  Dev = {}
 VIEW View
-PROPERTIES EffectOnlyIfAuthorized CanonicalAccepted RepeatNeverHelps ForeignNeverHelps RemovalNeverHelps EncodingIrrelevant TamperFalsifies GasPayerFieldBinds SchemeBinds PayerBinds ThresholdExact Reconf ChangeCovered BoxBinds LabelIrrelevant
+PROPERTIES EffectOnlyIfAuthorized CanonicalAccepted RepeatNeverHelps ForeignNeverHelps RemovalNeverHelps EncodingIrrelevant TamperFalsifies GasPayerFieldBinds SchemeBinds PayerBinds PayerBindsSigList ThresholdExact Reconf ChangeCovered BoxBinds LabelIrrelevant
 CHECK_DEADLOCK FALSE
